@@ -74,6 +74,7 @@ function QU(id, idx, val)
   return 1
 end
 function sink(...) return 1 end
+function IDH(m) return m end
 T = { id = function(self, ...) return self end }
 `
 
@@ -147,6 +148,19 @@ func runSource(src []byte) (res *runResult) {
 		if s, ok := L.Get(2).(lua.LString); ok {
 			t := string(s)
 			res.SetRet[id] = &t
+		}
+		return 0
+	}))
+	// host functions that fail, and one that calls its first argument from Go (unprotected)
+	L.SetGlobal("HRAISE", L.NewFunction(func(L *lua.LState) int { L.RaiseError("boom"); return 0 }))
+	L.SetGlobal("HARG", L.NewFunction(func(L *lua.LState) int { L.ArgError(1, "rejected"); return 0 }))
+	L.SetGlobal("HCALL", L.NewFunction(func(L *lua.LState) int {
+		var args []lua.LValue
+		for i := 2; i <= L.GetTop(); i++ {
+			args = append(args, L.Get(i))
+		}
+		if err := L.CallByParam(lua.P{Fn: L.Get(1), NRet: 0, Protect: false}, args...); err != nil {
+			L.RaiseError("%s", err.Error())
 		}
 		return 0
 	}))
